@@ -304,6 +304,36 @@ class VSvcDeco(_SvcMixin, PoolDecorator):
 
 
 @service(flavour=asyncio)
+class VSvcNew(_SvcMixin, PoolDecorator):
+    """A service that prepares part of its state in __new__ from the constructor arguments (as interned or frozen objects do)."""
+
+    def __new__(cls, target, label="new", **kwargs):
+        self = super().__new__(cls)
+        self.prepared = "prepared for %s" % label
+        return self
+
+    def __init__(self, target, label="new", **kwargs):
+        super().__init__(target)
+        self._setup(label, kwargs)
+
+    async def run(self):
+        _event("run", label=self.label, flavour="asyncio")
+        n = 0
+        try:
+            while True:
+                if self.prepared != "prepared for %s" % self.label:
+                    raise RuntimeError("service %s runs on an object its __new__ did not prepare" % self.label)
+                if self.fail_after is not None and n >= self.fail_after:
+                    return self._fail()
+                _event("beat", label=self.label, n=n)
+                n += 1
+                await asyncio.sleep(self.period)
+        except asyncio.CancelledError:
+            _event("cancelled", label=self.label)
+            raise
+
+
+@service(flavour=asyncio)
 class VSvcStubborn(_SvcMixin, PoolDecorator):
     """An asyncio service with a retry loop: it takes the first interruption of a step for a failed step and carries on."""
 
@@ -386,6 +416,6 @@ class VSvcScout(object):
 
 
 # every recording class is also reachable through a namespace class and an alternative constructor
-for _cls in (VCtrl, VDeco, VDeco2, VDecoKw, VDecoFalsy, VPool, VPoolEmpty, VSvcPool, VSvcEmpty, VSvcCtrl, VSvcTrioDeco, VSvcDeco, VSvcAgain, VSvcStubborn, VSvcWaiter, VSvcThread):
+for _cls in (VCtrl, VDeco, VDeco2, VDecoKw, VDecoFalsy, VPool, VPoolEmpty, VSvcPool, VSvcEmpty, VSvcCtrl, VSvcTrioDeco, VSvcDeco, VSvcAgain, VSvcStubborn, VSvcNew, VSvcWaiter, VSvcThread):
     setattr(Site, _cls.__name__, _cls)
     _cls.build = classmethod(_build)
